@@ -15,7 +15,7 @@ import (
 	lab "verif/harness/internal/mptlab"
 )
 
-// C17 — missing-node detection is exact; sync repair (MergeDB) restores the trie and leaves the donor unchanged.
+// C17 — missing-node detection is exact; sync repair (MergeDB, MergeState) restores the trie and leaves the donor unchanged.
 
 func memSnapshot(db *util.MemoryNodeDB) string {
 	var out []string
@@ -34,10 +34,24 @@ func runC17(c *fw.Ctx) {
 	mdl := map[string][]byte{}
 	var root util.Key
 	nver := 1 + r.Intn(4)
+	// every 80th case is a big trie (several hundred nodes): repairs then move more nodes than any batch size in the
+	// store layer
+	fat := c.Idx%80 == 7
 	for v := 1; v <= nver; v++ {
 		m := lab.NewMPT(full, int64(v), root)
-		for i, n := 0, 2+r.Intn(6); i < n; i++ {
+		nops := 2 + r.Intn(6)
+		if fat {
+			nops = 100 + r.Intn(120)
+		}
+		for i, n := 0, nops; i < n; i++ {
 			p := g.Pick(lab.SortedKeys(mdl))
+			if fat && i%4 != 0 {
+				b := make([]byte, 8)
+				for j := range b {
+					b[j] = "0123456789abcdef"[r.Intn(16)]
+				}
+				p = string(b)
+			}
 			if r.Intn(5) == 0 {
 				_, _ = m.Delete(util.Path(p))
 				delete(mdl, p)
@@ -112,6 +126,21 @@ func runC17(c *fw.Ctx) {
 		}
 		sets = append(sets, s)
 		setKinds = append(setKinds, "scattered")
+	}
+	if fat {
+		// a big trie gets few removal sets: two single nodes, one subtree, one scattered third, every non-root node
+		sets = [][]map[int]bool{{sets[0], sets[r.Intn(24)], sets[24], sets[27]}}[0]
+		setKinds = []string{"single", "single", "subtree", "scattered"}
+		s := map[int]bool{}
+		for i := 1; i < len(nodes); i++ {
+			s[i] = true
+		}
+		sets = append(sets, s, s) // twice: one repaired through the store (MergeState), one through the trie (MergeDB)
+		setKinds = append(setKinds, "all-but-root", "all-but-root")
+		if len(s) > 256 {
+			c.Count("removal_sets_above_256_nodes", 1)
+		}
+		c.Count("fat_tries", 1)
 	}
 	sets = append(sets, map[int]bool{})
 	setKinds = append(setKinds, "none")
@@ -243,11 +272,17 @@ func runC17(c *fw.Ctx) {
 		}
 		// repair
 		dsnap := memSnapshot(donor)
-		if err := M.MergeDB(donor, root, nil); err != nil {
+		if len(removed) > 0 && si%3 == 1 {
+			// store-level repair: the donor's nodes are merged into the store below the trie
+			if err := util.MergeState(context.Background(), donor, part); err != nil {
+				fail("MergeState failed: %v", err)
+			}
+			c.Count("store_level_repairs", 1)
+		} else if err := M.MergeDB(donor, root, nil); err != nil {
 			fail("MergeDB failed: %v", err)
 		}
 		if memSnapshot(donor) != dsnap {
-			fail("MergeDB changed the donor store")
+			fail("the repair changed the donor store")
 		}
 		if !bytes.Equal(M.GetRoot(), root) {
 			fail("root changed by repair")
@@ -413,10 +448,10 @@ func init() {
 		ID:           "C17",
 		EvalCounters: []string{"removal_sets"},
 		Level:        "exploration",
-		Rule: "each case builds a trie over 1..4 versions (so node origins differ) and then, for every single reachable non-root node (up to 24; exhaustive for small tries), 3 whole subtrees, 4 scattered subsets and the empty set, " +
+		Rule: "each case builds a trie over 1..4 versions (so node origins differ; every 80th case a big one with several hundred nodes and an additional removal set holding every non-root node) and then, for every single reachable non-root node (up to 24; exhaustive for small tries), 3 whole subtrees, 4 scattered subsets and the empty set, " +
 			"copies the trie into a store (memory / layered / persistent) without the removed nodes and a donor store with them. A trie opened at a version equal to or above the creating versions must: report HasMissingNodes iff the frontier is non-empty; " +
 			"GetAllMissingNodes == frontier (absent nodes reachable through present ones, computed by the harness); lookups through an absent node fail with ErrNodeNotFound, others return the model value, never-stored paths never return data; partial iteration yields only true pairs; " +
-			"after MergeDB(donor): content complete (also for a fresh trie on the repaired store), root unchanged, HasMissingNodes false, donor snapshot (key->encoding) byte-identical; for a third of the removal sets the repair is repeated through a trie whose cache is warm (it read the complete state before the nodes were deleted from its store) and judged by a fresh trie; for a quarter the repair runs in a child trie whose changes (plus one insert) are then merged into a parent trie of another version, after which the donor snapshot must still be identical; for a quarter the sync runs in a layered trie followed by SaveChanges to the lower store, which a fresh trie must read completely; for a quarter the donor is a layered store whose own trie has moved on since. non-trivial/distinct = (trie, removal set) pairs with a non-empty removal",
+			"after the repair (MergeDB(donor) through the trie, or for a third of the removal sets the store-level util.MergeState(donor, store)): content complete (also for a fresh trie on the repaired store), root unchanged, HasMissingNodes false, donor snapshot (key->encoding) byte-identical; for a third of the removal sets the repair is repeated through a trie whose cache is warm (it read the complete state before the nodes were deleted from its store) and judged by a fresh trie; for a quarter the repair runs in a child trie whose changes (plus one insert) are then merged into a parent trie of another version, after which the donor snapshot must still be identical; for a quarter the sync runs in a layered trie followed by SaveChanges to the lower store, which a fresh trie must read completely; for a quarter the donor is a layered store whose own trie has moved on since. non-trivial/distinct = (trie, removal set) pairs with a non-empty removal",
 		Cases: func(tier string) int {
 			if tier == "thorough" {
 				return 120000
@@ -424,7 +459,7 @@ func init() {
 			return 4800
 		},
 		Run:    runC17,
-		Floors: map[string]int64{"tries": 3000, "removal_sets": 50000, "removal:single": 30000, "removal:subtree": 9000, "removal:scattered": 12000, "blocked_lookups": 50000, "repairs_with_foreign_origin": 20000, "tries_with_mixed_origins": 1000, "warm_cache_repairs": 10000, "repaired_child_merged_into_parent": 8000, "synced_state_saved_and_reread": 8000, "repairs_from_layered_donor": 8000},
+		Floors: map[string]int64{"fat_tries": 50, "removal_sets_above_256_nodes": 35, "store_level_repairs": 15000, "tries": 3000, "removal_sets": 50000, "removal:single": 30000, "removal:subtree": 9000, "removal:scattered": 12000, "blocked_lookups": 50000, "repairs_with_foreign_origin": 20000, "tries_with_mixed_origins": 1000, "warm_cache_repairs": 10000, "repaired_child_merged_into_parent": 8000, "synced_state_saved_and_reread": 8000, "repairs_from_layered_donor": 8000},
 		Assumptions: []string{
 			"the donor is a MemoryNodeDB (map iteration order = arbitrary repair order)",
 			"single-node removals are exhaustive up to 24 nodes per trie; other subsets are sampled",
